@@ -237,7 +237,6 @@ pub fn seq4<T, N: ArrayLength, const R: usize>() {
 /// Driven through a directly constructed Formatter (no format!), non-alternate flags. The position is
 /// concrete per harness (front = R / 16, back = R % 16 - symbolic positions make CBMC run out of memory
 /// inside core::fmt); the element values, hence the output bytes, are symbolic.
-#[cfg(kani)]
 pub fn debug_fmt<T, N: ArrayLength, const R: usize>() {
     use core::fmt::Write;
     let n = N::USIZE;
@@ -290,7 +289,6 @@ pub mod q {
             n3: <(), U3, 0> unwind 7;
         }
     }
-    #[cfg(kani)]
     pub mod debug_fmt {
         use super::super::debug_fmt;
         use crate::common::*;
@@ -323,7 +321,6 @@ pub mod t {
             n4: <(), U4, 0> unwind 8;
         }
     }
-    #[cfg(kani)]
     pub mod debug_fmt {
         use super::super::debug_fmt;
         use crate::common::*;
